@@ -96,7 +96,7 @@ type c17Case struct {
 	Ops [][]c17Op `json:"ops"` // one list per goroutine
 }
 
-var c17Kinds = []string{"new", "clone", "cloneFn", "cloneForeign", "cloneShared", "received", "addHeader", "addResponse", "readHeaders", "readOne", "setTimeout", "timeout", "addEphemeral", "readEphemeral", "cid"}
+var c17Kinds = []string{"new", "clone", "cloneFn", "cloneForeign", "cloneShared", "received", "addHeader", "addResponse", "readHeaders", "readOne", "setTimeout", "timeout", "addEphemeral", "readEphemeral", "cid", "decodeResponse"}
 
 func genC17(t *rapid.T) c17Case {
 	g := rapid.IntRange(2, 32).Draw(t, "goroutines")
@@ -107,7 +107,7 @@ func genC17(t *rapid.T) c17Case {
 		for j := 0; j < n; j++ {
 			op := c17Op{Kind: rapid.SampledFrom(c17Kinds).Draw(t, "kind")}
 			switch op.Kind {
-			case "addHeader", "addResponse", "addEphemeral":
+			case "addHeader", "addResponse", "addEphemeral", "decodeResponse":
 				op.K = fmt.Sprintf("g%d-%d", i, j)
 				op.V = rapid.StringMatching(`[a-zé]{0,6}`).Draw(t, "v")
 			case "readOne":
@@ -207,6 +207,13 @@ func execC17Inner(c c17Case) *ev.Failure {
 					shared.AddRequestHeader(op.K, op.V)
 				case "addResponse":
 					shared.AddResponseHeader(op.K, op.V)
+				case "decodeResponse":
+					// a response frame is decoded into the shared context (what a client does when a reply arrives)
+					wire := refEncodeHeaders([]KV{kv("_opid", ids0), kv(op.K, op.V)})
+					if err := pf.GetProtocol(&thrift.TMemoryBuffer{Buffer: bytes.NewBuffer(wire)}).ReadResponseHeader(shared); err != nil {
+						fails[g] = ev.Failf("harness:read", "%v", err)
+						return
+					}
 				case "readHeaders":
 					for k, v := range shared.RequestHeaders() {
 						_, _ = k, v
@@ -266,7 +273,7 @@ func execC17Inner(c c17Case) *ev.Failure {
 			switch op.Kind {
 			case "addHeader":
 				wantReq[op.K] = op.V
-			case "addResponse":
+			case "addResponse", "decodeResponse":
 				wantResp[op.K] = op.V
 			case "addEphemeral":
 				wantEph[op.K] = op.V
